@@ -584,7 +584,12 @@ def read(image: bytes, password=None, decode_data=True) -> Archive:
             if decode_data:
                 try:
                     ps = _slice_packed(image, 32, pi, k, np_, arc, "folder %d" % fi_)
-                    dec = decode_folder(f, ps, password, arc, "folder %d" % fi_)
+                    if folder_unpack_size(f) == 0 and all(u == 0 for u in f["unpacksizes"]):
+                        # a folder that holds no byte of content: nothing to decode (its packed bytes cannot affect any member)
+                        dec = b""
+                        arc.lint.append("zero-size folder not decoded")
+                    else:
+                        dec = decode_folder(f, ps, password, arc, "folder %d" % fi_)
                 except Unsupported as e:
                     arc.undecoded.append((fi_, str(e)))
                     dec = None
